@@ -358,7 +358,7 @@ fn legacy_error<T>(
                     meta.into_token_stream().to_string()
                 }
                 polyfill::NestedMeta::Lit(syn::Lit::Str(str)) => str.value(),
-                polyfill::NestedMeta::Lit(_) => unreachable!(),
+                polyfill::NestedMeta::Lit(lit) => lit.into_token_stream().to_string(),
             };
             if fields.len() > 1 {
                 format!(
